@@ -170,6 +170,10 @@ func (g *SG) simple() Stmt {
 		t := []string{"H.I64", "H.In.X", "H.Pn.X", "H.U64"}[r.Intn(4)]
 		return &Assign{Target: t, Op: []string{"+=", "*="}[r.Intn(2)], E: ilit(int64(r.Intn(3) + 1))}
 	case 10:
+		if r.Intn(6) == 0 {
+			g.Stats["compound_on_element_changed_by_its_right_side"]++
+			return &Assign{Elem: &Elem{Cont: "M64", KeyStr: ss("zz")}, Op: "+=", E: &CallE{Name: "mbump"}}
+		}
 		g.Stats["elem_assign"]++
 		k := int64(r.Intn(4))
 		return &Assign{Elem: &Elem{Cont: "VS", KeyInt: &k}, Op: []string{"=", "+=", "-="}[r.Intn(3)], E: g.smallInt(1)}
@@ -267,6 +271,10 @@ func (g *SG) stmt(nest int, inLoop, mayReturn bool) []Stmt {
 		}
 		body := []Stmt{g.tv(&Ref{kv}), g.tv(&Elem{Cont: c, KeyVar: kv})}
 		body = append(body, g.Block(nest+1, true, true)[1:]...)
+		if c != "VE" {
+			// one flat scope per rule: the loop variable is still there (with its last value) after the loop
+			return []Stmt{&ForRange{Key: kv, Cont: c, Body: body}, g.tv(&Ref{kv})}
+		}
 		return []Stmt{&ForRange{Key: kv, Cont: c, Body: body}}
 	case 6:
 		g.Stats["forrange_map"]++
